@@ -117,6 +117,8 @@ func (s *Store[H]) deleteSequential(
 	defer func() {
 		if derr := done(); derr != nil {
 			err = errors.Join(err, fmt.Errorf("committing batch: %w", derr))
+			// none of the batched deletes made it to disk, so no progress was made
+			highest = from
 		}
 	}()
 	ctx, doneTx := s.withReadTransaction(ctx)
@@ -181,16 +183,26 @@ func (s *Store[H]) deleteParallel(ctx context.Context, from, to uint64) (uint64,
 			}
 		}()
 
+		// first is the lowest height this worker got, valid once it got any
+		var first *uint64
 		workerCtx, done := s.withWriteBatch(ctx)
 		defer func() {
 			if err := done(); err != nil {
 				last.err = errors.Join(last.err, fmt.Errorf("committing delete batch: %w", err))
+				// none of the worker's batched deletes made it to disk,
+				// so report the lowest of its heights as the failed one
+				if first != nil {
+					last.height = *first
+				}
 			}
 		}()
 		workerCtx, doneTx := s.withReadTransaction(workerCtx)
 		defer doneTx()
 
 		for height := range jobCh {
+			if first == nil {
+				first = &height
+			}
 			last.height = height
 			last.err = s.deleteSingle(workerCtx, height, onDelete)
 			if isMissingHeader(last.err) {
